@@ -30,3 +30,10 @@ func (idx *InheritIndex) VerifByItem() map[any][]any {
 
 // VerifDirty returns the number of items still marked dirty.
 func (idx *InheritIndex) VerifDirty() int { return idx.dirtyItemIDs.Len() }
+
+// VerifIterCandidates returns the endpoint ids iterEndpointCandidates produces for an existing IP set.
+func (idx *SelectorAndNamedPortIndex) VerifIterCandidates(ipSetID string) []any {
+	var out []any
+	idx.iterEndpointCandidates(ipSetID, func(epID any, _ *endpointData) { out = append(out, epID) })
+	return out
+}
